@@ -70,6 +70,11 @@ def custom_matrix(spec, d):
         return R.haar_unitary(d, seed)
     if u == "contr":
         return R.random_contraction(d, seed)
+    if u == "perm":  # a permutation of the basis states (integer valued)
+        perm = np.random.RandomState(seed).permutation(d)
+        m = np.zeros((d, d), dtype=R.C)
+        m[perm, np.arange(d)] = 1
+        return m
     if u == "shift":  # cyclic shift |n> -> |n+1 mod d>
         m = np.zeros((d, d), dtype=R.C)
         for n in range(d):
@@ -200,7 +205,10 @@ def build_library_operation(spec, world=None):
     user = []
 
     def arr(m, as_np=False):
-        a = np.array(m, dtype=np.complex128) if as_np else jnp.asarray(np.array(m, dtype=np.complex128))
+        m = np.array(m, dtype=np.complex128)
+        if spec.get("dtype") == "int" and np.all(m.imag == 0) and np.all(m.real == np.round(m.real)):
+            m = m.real.astype(np.int64)  # the dtype a user would naturally write for a 0/1 matrix
+        a = m if as_np else jnp.asarray(m)
         user.append(a)
         return a
 
@@ -389,6 +397,18 @@ def _single_set(spec, d):
             v = U[:, i]
             out.append(np.outer(v, v.conj()))
         return out
+    if f == "perm":  # a permutation of the basis states (one integer-valued unitary)
+        perm = np.random.RandomState(int(spec.get("seed", 1))).permutation(d)
+        P = np.zeros((d, d), dtype=R.C)
+        P[perm, np.arange(d)] = 1
+        return [P]
+    if f == "jump":  # M_n = |0><n|: complete, integer valued, as non-normal as it gets
+        out = []
+        for i in range(d):
+            P = np.zeros((d, d), dtype=R.C)
+            P[0, i] = 1
+            out.append(P)
+        return out
     if f == "basis":  # computational-basis projectors
         out = []
         for i in range(d):
@@ -453,4 +473,13 @@ def to_library_arrays(mats, arr="jnp"):
 
     if arr == "np":
         return [np.array(m, dtype=np.complex128) for m in mats]
-    return [jnp.asarray(np.array(m, dtype=np.complex128)) for m in mats]
+    ms = [np.array(m, dtype=np.complex128) for m in mats]
+    if arr in ("real", "int", "npint") and all(np.all(m.imag == 0) for m in ms):
+        # the dtype a user would naturally write: float for real sets, int for 0/1 matrices
+        if arr != "real" and all(np.all(m.real == np.round(m.real)) for m in ms):
+            ms = [m.real.astype(np.int64) for m in ms]
+        else:
+            ms = [m.real.astype(np.float64) for m in ms]
+        if arr == "npint":
+            return ms
+    return [jnp.asarray(m) for m in ms]
